@@ -484,4 +484,45 @@ theorem hijriT_translates :
   ⟨fun jd => hijriT_JdTo_eq jd, fun y m d h1 h2 => hijriT_ToJd_eq y m d h1 (by omega),
    fun y m h1 h2 => hijriT_GetMonthLen_eq y m h1 h2⟩
 
+/-! ### C01 (partial, as for the model) restated about the translated table-mode code -/
+
+def nearYears : List Int := HijriT.rangeI 1425 20
+def months12 : List Int := HijriT.rangeI 1 12
+
+theorem monthLenT_near : nearYears.all (fun y => months12.all (fun m => decide (HijriT.monthLenT y m < 256))) = true := by
+  decide +kernel
+
+theorem monthLenT_lt (y m : Int) (h1 : 1 ≤ m) (h2 : m ≤ 12) : HijriT.monthLenT y m < 256 := by
+  by_cases hy : y < 1426 ∨ 1444 ≤ y
+  · rw [HijriT.monthLenT_far y m ⟨h1, h2⟩ hy]
+    have := Hijri.monthLen_range y m
+    omega
+  · have hy' : y ∈ nearYears := HijriT.mem_rangeI 1425 20 y (by omega) (by omega)
+    have hm' : m ∈ months12 := HijriT.mem_rangeI 1 12 m (by omega) (by omega)
+    have := List.all_eq_true.mp (List.all_eq_true.mp monthLenT_near y hy') m hm'
+    simpa using this
+
+/-- every day number outside the start seam of the known finding (2453442 … 2453470) and other than the three
+    end-seam days on which the code produces day 0 converts, BY TODAY'S SOURCE with the month table on, to a date that
+    today's source converts back to it — no panic on the way -/
+theorem src_hijri_table_roundtrip_partial (jd : Int) (hseam : jd < 2453442 ∨ 2453470 < jd)
+    (hne : jd ≠ 2459703 ∧ jd ≠ 2459732 ∧ jd ≠ 2459762) :
+    ∃ d, hijriT_JdTo hijriTable jd = some d ∧ hijriT_ToJd hijriTable d = some jd := by
+  have hwf := HijriT.hijri_table_wf_partial jd ⟨by omega, hne.1, hne.2.1, hne.2.2⟩
+  have hrt := HijriT.hijri_table_jd_roundtrip_partial jd hseam
+  have key := hijriT_JdTo_eq jd
+  have hml := fun h1 h2 => monthLenT_lt (HijriT.jdToT jd).year (HijriT.jdToT jd).month h1 h2
+  revert hwf hrt key hml
+  generalize HijriT.jdToT jd = dt
+  obtain ⟨y, m, d⟩ := dt
+  intro hwf hrt key hml
+  unfold HijriT.wfT at hwf
+  simp only [Bool.and_eq_true, decide_eq_true_eq] at hwf
+  obtain ⟨⟨⟨m1, m2⟩, d1⟩, d2⟩ := hwf
+  have hl := hml m1 m2
+  simp only at key hl d2
+  rw [GoSem.u8_id (x := m) (by omega) (by omega), GoSem.u8_id (x := d) (by omega) (by omega)] at key
+  refine ⟨_, key, ?_⟩
+  rw [hijriT_ToJd_eq y m d m1 (by omega), hrt]
+
 end Starcal.SrcTie
